@@ -73,6 +73,13 @@ func (s *SymStr) String() string {
 	return sb.String()
 }
 
+// HashV is a running cryptographic hash (crypto/sha256.New()).
+type HashV struct {
+	name string
+	size int
+	buf  []Value
+}
+
 // OpaqueV stands for a value of a stubbed library type (logger, span, ...).
 type OpaqueV struct{ what string }
 
